@@ -2,6 +2,7 @@ package main
 
 import (
 	"fmt"
+	"strings"
 	"math/rand"
 	"sort"
 	"time"
@@ -304,4 +305,32 @@ func buildDataset(c *fw.Ctx, o dsOpts) *dataset {
 	d.asOf = ref.CeilTime(d.now.Add(-retention), t.Res)
 	c.HashAdd(t.SQL(), n, d.split, span)
 	return d
+}
+
+// storageRaceSig attributes a race report to the storage/scan state the snapshot and
+// flush-independence properties depend on: one side in the ingest/flush path, the other in a scan.
+func storageRaceSig(report string) string {
+	has := func(s string) bool { return strings.Contains(report, s) }
+	ingest := has("bytetree.(*node).doUpdate") || has("encoding.Sequence.UpdateValue") || has("(*rowStore).processInserts") || has("expr.(*aggregate).Update") || has("expr.(*aggregate).save")
+	scan := has("(*fileStore).iterate") || has("core.(*flatten).Iterate") || has("encoding.Sequence.ValueAt") || has("bytetree.(*Tree).Walk") || has("encoding.Sequence.Merge") || has("rowMerger") || has("expr.(*aggregate).load")
+	if ingest && scan {
+		return "ingest-vs-scan:" + shortRaceKey(report)
+	}
+	return ""
+}
+
+func shortRaceKey(report string) string {
+	var fns []string
+	for _, l := range strings.Split(report, "\n") {
+		l = strings.TrimSpace(l)
+		if strings.HasPrefix(l, "github.com/getlantern/zenodb") && strings.Contains(l, "(") {
+			f := l[:strings.LastIndex(l, "(")]
+			f = strings.TrimPrefix(f, "github.com/getlantern/zenodb")
+			fns = append(fns, f)
+			if len(fns) >= 2 {
+				break
+			}
+		}
+	}
+	return strings.Join(fns, "|")
 }
